@@ -24,9 +24,11 @@ from pathlib import Path
 
 sys.path.insert(0, str(Path(__file__).resolve().parent))
 import common as C
+import c08_et as ET
 
 PID = "C08"
-TARGETS = ["PubSub/Model.vo", "PubSub/SubsProofs.vo", "PubSub/EventProofs.vo", "PubSub/Proofs.vo", "PubSub/OpsProofs.vo", "Props/C08.vo"]
+TARGETS = ["PubSub/Model.vo", "PubSub/SubsProofs.vo", "PubSub/EventProofs.vo", "PubSub/Proofs.vo", "PubSub/OpsProofs.vo",
+           "PubSub/TypeModel.vo", "PubSub/TypeProofs.vo", "Props/C08.vo"]
 N_ET = 3
 N_LIS = 4
 
@@ -626,28 +628,53 @@ def ctor_space(tier: str, rng: random.Random):
 
 
 # ------------------------------------------------------------------ shrinking
+def _cp(x):
+    return json.loads(json.dumps(x))
+
+
 def shrink(case, failing):
-    cur = json.loads(json.dumps(case))
+    """greedy delta debugging: drop outermost ops, ops inside listener programs, whole programs,
+    all programs of a listener, metadata declarations; until nothing more can go."""
+    cur = _cp(case)
+
+    def candidates(c):
+        for i in range(len(c["ops"])):
+            if len(c["ops"]) > 1:
+                d = _cp(c); del d["ops"][i]; yield d
+        for li, q in enumerate(c["scripts"]):
+            if q:
+                d = _cp(c); d["scripts"][li] = []; yield d
+            for si, sc in enumerate(q):
+                d = _cp(c); del d["scripts"][li][si]; yield d
+                for oi in range(len(sc)):
+                    d = _cp(c); del d["scripts"][li][si][oi]; yield d
+        for ei, md in enumerate(c["env"]):
+            if md is not None:
+                d = _cp(c); d["env"][ei] = None; yield d
     changed = True
     while changed:
         changed = False
-        for i in range(len(cur["ops"])):
-            cand = json.loads(json.dumps(cur)); del cand["ops"][i]
-            if cand["ops"] and failing(cand):
+        for cand in candidates(cur):
+            if failing(cand):
                 cur, changed = cand, True
                 break
-        if changed:
-            continue
-        for li, q in enumerate(cur["scripts"]):
-            for si, s in enumerate(q):
-                for oi in range(len(s)):
-                    cand = json.loads(json.dumps(cur)); del cand["scripts"][li][si][oi]
-                    if failing(cand):
-                        cur, changed = cand, True
-                        break
-                if changed:
-                    break
-            if changed:
+    return cur
+
+
+def shrink_tcase(case, failing):
+    cur = _cp(case)
+    changed = True
+    while changed:
+        changed = False
+        cands = []
+        for i in range(len(cur["events"])):
+            d = _cp(cur); del d["events"][i]; cands.append(d)
+        for i in range(len(cur["ctors"])):
+            if len(cur["ctors"]) > 1:
+                d = _cp(cur); del d["ctors"][i]; cands.append(d)
+        for cand in cands:
+            if failing(cand):
+                cur, changed = cand, True
                 break
     return cur
 
@@ -825,11 +852,34 @@ def main(tier: str) -> int:
         if acc is not exp and ctor_bad is None:
             ctor_bad = (inp, acc, exp)
 
-    run.cov["evaluations"] = len(done) + len(ctor_in)
+    # ---- EventType constructions (defining sites, names, metadata declarations) + events against them
+    me = sys.modules[__name__]
+    n_t = 1200 if tier == "quick" else 20000
+    tdone = []
+    t_bad = None
+    t_hist = collections.Counter()
+    import pydsol.core.pubsub as ps_mod
+    for _ in range(n_t):
+        tc = ET.gen_tcase(rng, Gen, VALUE_TYPES)
+        try:
+            tobs, eobs = ET.run_tcase(ps_mod, tc, me)
+        except Exception as exc:  # noqa
+            run.violation("harness-cannot-run-implementation", f"EventType case failed: {type(exc).__name__}: {exc}", {"tcase": tc}, found_input=False)
+            return run.finish()
+        for o in tobs:
+            t_hist[o[0]] += 1
+        f = ET.judge_tcase(tc, tobs, eobs, me)
+        if f and t_bad is None:
+            t_bad = (tc, f)
+        tdone.append((tc, tobs, eobs))
+
+    run.cov["evaluations"] = len(done) + len(ctor_in) + len(tdone)
     run.cov["distinct_nontrivial"] = len(nontrivial)
     run.cov["rule"] = (f"{n_random} random + {n_mal} malformed-stream op sequences over {N_ET} event types x {N_LIS} listeners with scripted "
                        f"re-entrant listeners + all {n_exh} sequences of length <= {exh_len} over a 14-op alphabet with fixed re-entrant listeners "
-                       f"+ {len(ctor_in)} Event/TimedEvent constructions (payload shape x metadata x check x timestamp kind); "
+                       f"+ {len(ctor_in)} Event/TimedEvent constructions (payload shape x metadata x check x timestamp kind) "
+                       f"+ {len(tdone)} EventType construction sequences (4 defining sites x names x str/non-str keys x type/non-type values, "
+                       "accepted and refused interleaved) each followed by events against the created types; "
                        "non-trivial = distinct op-sequence case containing a completely delivered fire with >= 2 subscribers at the moment of "
                        "firing during which listener programs changed the subscriber list of that event type or fired again")
     run.cov["op_histogram"] = dict(op_hist)
@@ -839,6 +889,7 @@ def main(tier: str) -> int:
     run.cov["operations_performed_inside_notify"] = n_nested
     run.cov["constructions"] = {"total": len(ctor_in), "accepted": n_ctor_acc}
     run.cov["exhaustive_small_scope_sequences"] = n_exh
+    run.cov["event_type_constructions"] = dict(t_hist)
     for case, trace in done[n_corpus:n_corpus + 2]:
         run.add_sample({"case": case, "impl_observations": trace})
 
@@ -868,6 +919,24 @@ def main(tier: str) -> int:
                            f"implementation accepted={acc}, property's rule says accepted={exp}",
                       {"metadata": md, "timestamp": ts, "content": c, "check": chk, "impl_accepted": acc, "expected_accepted": exp})
 
+    if t_bad:
+        impl_fail = True
+        tc, f = t_bad
+        sig = f[0][0]
+
+        def tfailing(c):
+            try:
+                to, eo = ET.run_tcase(ps_mod, c, me)
+            except Exception:
+                return False
+            return any(s_ == sig for s_, _ in ET.judge_tcase(c, to, eo, me))
+        small = shrink_tcase(tc, tfailing)
+        to, eo = ET.run_tcase(ps_mod, small, me)
+        what = [w for s_, w in ET.judge_tcase(small, to, eo, me) if s_ == sig][0]
+        run.violation(sig, what, {"tcase": small, "impl_type_observations": to, "impl_event_observations": eo,
+                                  "how": "harness/c08_et.py run_tcase: ctors = [defining site, name, metadata] in order; "
+                                         "events = [index among created types, timestamp, content, check]"})
+
     # ---- model vs implementation inside coqc
     d = C.scratch_dir(PID)
     shard = 400
@@ -880,8 +949,12 @@ def main(tier: str) -> int:
     for s in range(0, len(ctor_pairs), cshard):
         f = d / f"cases_c08_ctor_{s // cshard}.v"
         emit_ctor(f, ctor_pairs[s:s + cshard]); files.append(f); kinds.append(("ctor", s))
+    tshard = 400
+    for s_ in range(0, len(tdone), tshard):
+        f = d / f"cases_c08_et_{s_ // tshard}.v"
+        ET.emit_tcases(f, tdone[s_:s_ + tshard], me); files.append(f); kinds.append(("type", s_))
     results = C.coqc_many(files)
-    mism_seq, mism_ctor = [], []
+    mism_seq, mism_ctor, mism_type = [], [], []
     for (kind, base), f, (rc, out) in zip(kinds, files, results):
         lst = C.parse_nat_list(out)
         if rc != 0 or lst is None:
@@ -889,26 +962,57 @@ def main(tier: str) -> int:
                           "coqc could not evaluate the C08 correspondence (PubSub.Model.case_ok): " + out[-600:],
                           {"file": str(f)}, found_input=False)
             return run.finish()
-        (mism_seq if kind == "seq" else mism_ctor).extend(base + i for i in lst)
+        {"seq": mism_seq, "ctor": mism_ctor, "type": mism_type}[kind].extend(base + i for i in lst)
     # constructions the implementation answered with something that is neither acceptance nor EventError
-    n_mism = len(mism_seq) + len(mism_ctor)
-    run.cov["traces_validated_against_impl"] = len(done) + len(ctor_in) - n_mism
+    n_mism = len(mism_seq) + len(mism_ctor) + len(mism_type)
+    run.cov["traces_validated_against_impl"] = len(done) + len(ctor_in) + len(tdone) - n_mism
     run.cov["model_impl_mismatches"] = n_mism
     if n_mism and not impl_fail:
         if mism_seq:
             case, trace = done[mism_seq[0]]
             rep = {"case": case, "impl_observations": trace, "relation": "PubSub.Model.case_ok"}
-        else:
+        elif mism_ctor:
             inp, acc = ctor_pairs[mism_ctor[0]]
             rep = {"construction": inp, "impl_accepted": acc, "relation": "PubSub.Model.ctor_ok"}
+        else:
+            tc, to, eo = tdone[mism_type[0]]
+            rep = {"tcase": tc, "impl_type_observations": to, "impl_event_observations": eo, "relation": "PubSub.TypeModel.tcase_ok"}
         run.violation("model-impl-disagree",
-                      "correspondence PubSub.Model.case_ok / ctor_ok no longer matches the implementation, but the monitor "
+                      "correspondence PubSub.Model.case_ok / ctor_ok / PubSub.TypeModel.tcase_ok no longer matches the implementation, but the monitor "
                       "(reference subscription map + reference acceptance rule) found no violated clause",
                       rep, found_input=False)
     if not proofs_ok and not run.violations:
         run.violation("proof-broken", "a C08 proof obligation no longer checks: " + getattr(run, "proof_log", "")[-800:],
                       {"theorems": run.cov.get("theorems")}, found_input=False)
     return run.finish()
+
+
+def replay(path: str) -> int:
+    """./check C08 --replay <file>: run the recorded input on the implementation with the monitor."""
+    C.use_repo_sources()
+    import pydsol.core.pubsub as ps
+    d = json.loads(Path(path).read_text())
+    me = sys.modules[__name__]
+    if "case" in d:
+        trace, findings, _ = run_impl(d["case"])
+        print("observations:", json.dumps(trace))
+    elif "tcase" in d:
+        to, eo = ET.run_tcase(ps, d["tcase"], me)
+        findings = ET.judge_tcase(d["tcase"], to, eo, me)
+        print("observations:", json.dumps([to, eo]))
+    elif "content" in d:
+        inp = (d["metadata"], d["timestamp"], d["content"], d["check"])
+        acc = run_ctor([inp])[0]
+        exp = ref_ctor(*inp)
+        findings = [] if acc is exp else [("construction", f"accepted={acc}, expected {exp}")]
+    else:
+        print("nothing replayable in", path)
+        return 2
+    for sig, what in findings:
+        print(f"FAILS [{sig}] {what}")
+    if not findings:
+        print("holds on this input")
+    return 1 if findings else 0
 
 
 if __name__ == "__main__":
